@@ -93,50 +93,55 @@ PROPS = {
     ),
     'C01': dict(
         title='pack then unpack returns an equal message',
-        modules=['Pbc.Lemmas.Elem', 'Pbc.Props.C02', 'Pbc.Props.C01', 'Pbc.Props.C01b'],
+        modules=['Pbc.Lemmas.Elem', 'Pbc.Props.C02', 'Pbc.Props.C01', 'Pbc.Props.C01b', 'Pbc.Props.C01c'],
         theorems=['Pbc.Lemmas.parseScalar_scalarBytes', 'Pbc.Lemmas.scanKey_keyBytes', 'Pbc.Lemmas.scanLen_lenPrefixed',
                   'Pbc.Lemmas.scalarBytes_scan_varint', 'Pbc.Lemmas.unzigzag32_zigzag32', 'Pbc.Lemmas.unzigzag64_zigzag64',
                   'Pbc.Lemmas.loadLE_le32', 'Pbc.Lemmas.loadLE_le64', 'Pbc.Props.C02.packMsg_length',
                   'Pbc.Props.C01.packMsg_recs', 'Pbc.Props.C01.elemRec_ok', 'Pbc.Props.C01.recsMsg_ok', 'Pbc.Props.C01.scanStep_rec',
                   'Pbc.Props.C01.scanLoop_recs', 'Pbc.Props.C01.pack_scans',
                   'Pbc.Props.C01.parseRequired_elem', 'Pbc.Props.C01.parsePacked_elems', 'Pbc.Props.C01.parse_slot', 'Pbc.Props.C01.parse_slots',
-                  'Pbc.Props.C01.roundtrip_level', 'Pbc.Props.C01.roundtrip_partial', 'Pbc.Props.C01.unpack_pack_partial'],
+                  'Pbc.Props.C01.roundtrip_level', 'Pbc.Props.C01.roundtrip_partial', 'Pbc.Props.C01.unpack_pack_partial',
+                  'Pbc.Props.C01.step', 'Pbc.Props.C01.roundtrip_level_oneof', 'Pbc.Props.C01.roundtrip', 'Pbc.Props.C01.unpack_pack'],
         refine=PACK_LEAVES + PARSE_LEAVES + TABLE_LEAVES,
         cases=[('msg', 300, 5000, []), ('leaf', 20, 200, [])],
         oracle='c01',
     ),
     'C03': dict(
         title='packed bytes are valid protobuf with the same meaning (encoder interop)',
-        modules=['Pbc.Props.C02', 'Pbc.Lemmas.Elem', 'Pbc.Props.C01b'],
+        modules=['Pbc.Props.C02', 'Pbc.Lemmas.Elem', 'Pbc.Props.C01b', 'Pbc.Props.C01c'],
         theorems=['Pbc.Props.C02.packMsg_length', 'Pbc.Lemmas.parseScalar_scalarBytes', 'Pbc.Lemmas.scanKey_keyBytes',
                   'Pbc.Lemmas.scanLen_lenPrefixed', 'Pbc.Lemmas.scalarBytes_scan_varint',
-                  'Pbc.Props.C01.roundtrip_partial'],
+                  'Pbc.Props.C01.roundtrip_partial',
+                  'Pbc.Props.C01.roundtrip'],
         refine=PACK_LEAVES + SIZE_LEAVES + TABLE_LEAVES,
         cases=[('enc', 300, 5000, [])], gen=(8, 48),
         oracle='c03', ref=True,
     ),
     'C04': dict(
         title='every valid encoding is accepted and read as the reference reads it',
-        modules=['Pbc.Props.C05', 'Pbc.Props.C11', 'Pbc.Lemmas.Elem'],
+        modules=['Pbc.Props.C05', 'Pbc.Props.C11', 'Pbc.Lemmas.Elem', 'Pbc.Props.C04', 'Pbc.Props.C01c'],
         theorems=['Pbc.Props.C05.pass2_count_le_pass1', 'Pbc.Props.C05.scanLoop_fuel_irrelevant',
-                  'Pbc.Props.C11.only_required_fields_matter', 'Pbc.Lemmas.parseScalar_scalarBytes', 'Pbc.Lemmas.scanKey_keyBytes'],
+                  'Pbc.Props.C11.only_required_fields_matter', 'Pbc.Lemmas.parseScalar_scalarBytes', 'Pbc.Lemmas.scanKey_keyBytes',
+                  'Pbc.Props.C04.parse_repeated_either', 'Pbc.Props.C04.parse_packed_anyflag', 'Pbc.Props.C04.parse_rep_elems_anyflag', 'Pbc.Props.C04.decGroups_padded', 'Pbc.Props.C04.scanVarint_padded', 'Pbc.Props.C01.roundtrip'],
         refine=PARSE_LEAVES + TABLE_LEAVES,
         cases=[('valid', 400, 6000, [])],
         oracle='c04', ref=True,
     ),
     'C09': dict(
         title='unknown fields survive parse and re-serialise (forward compatibility)',
-        modules=['Pbc.Props.C02', 'Pbc.Lemmas.Elem'],
+        modules=['Pbc.Props.C02', 'Pbc.Lemmas.Elem', 'Pbc.Props.C01c'],
         theorems=['Pbc.Props.C02.chunksMsg_flatten', 'Pbc.Props.C02.packMsg_length', 'Pbc.Lemmas.scanKey_keyBytes',
-                  'Pbc.Lemmas.scanLen_lenPrefixed'],
+                  'Pbc.Lemmas.scanLen_lenPrefixed',
+                  'Pbc.Props.C01.pack_scans', 'Pbc.Props.C01.roundtrip'],
         refine=['parse_tag_and_wiretype_spec', 'scan_length_prefixed_data_spec', 'scan_varint_spec', 'tag_pack_spec'],
         cases=[('compat', 300, 5000, [])],
         oracle='c09', ref=True,
     ),
     'C10': dict(
         title='repeated occurrences of a singular field merge as protobuf prescribes',
-        modules=['Pbc.Props.C11'],
-        theorems=['Pbc.Props.C11.only_required_fields_matter'],
+        modules=['Pbc.Props.C11', 'Pbc.Props.C10'],
+        theorems=['Pbc.Props.C11.only_required_fields_matter',
+                  'Pbc.Props.C10.last_wins', 'Pbc.Props.C10.last_of_two_wins', 'Pbc.Props.C10.repeated_appends', 'Pbc.Props.C10.oneof_last_member_wins'],
         refine=PARSE_LEAVES,
         cases=[('merge', 400, 6000, [])],
         oracle='c10', ref=True,
@@ -154,11 +159,12 @@ PROPS = {
     ),
     'C06': dict(
         title='whatever the parser accepts is well-formed, re-serialisable and stable',
-        modules=['Pbc.Props.C02', 'Pbc.Lemmas.Elem', 'Pbc.Props.C01', 'Pbc.Props.C01b'],
+        modules=['Pbc.Props.C02', 'Pbc.Lemmas.Elem', 'Pbc.Props.C01', 'Pbc.Props.C01b', 'Pbc.Props.C01c'],
         theorems=['Pbc.Props.C02.packMsg_length', 'Pbc.Props.C02.chunksMsg_flatten', 'Pbc.Props.C02.chunks_total',
                   'Pbc.Lemmas.scanKey_keyBytes', 'Pbc.Lemmas.scanLen_lenPrefixed',
                   'Pbc.Props.C01.packMsg_recs', 'Pbc.Props.C01.pack_scans',
-                  'Pbc.Props.C01.roundtrip_partial'],
+                  'Pbc.Props.C01.roundtrip_partial',
+                  'Pbc.Props.C01.roundtrip'],
         refine=PARSE_LEAVES + PACK_LEAVES + SIZE_LEAVES,
         cases=[('wire', 500, 8000, [])],
         oracle='c06',
